@@ -902,3 +902,270 @@ func TestVerifC05Cache(t *testing.T) {
 		"restricted fit queries steered to the remainder boundary with preemptible amounts, nominate-gate queries; half of the histories keep " +
 		"the reserved dimensions fixed; non-trivial = >=3 mutating ops or an admitted restricted fit; distinct by op lines")
 }
+
+// ---------------------------------------------------------------------------------------------
+// "match" harness: owner matching and checkReservationMatchedOrIgnored
+
+type c05Owner struct {
+	obj  *corev1.ObjectReference
+	ctrl *schedulingv1alpha1.ReservationControllerReference
+	sel  *metav1.LabelSelector
+}
+
+// independent evaluation of one owner entry on a pod, from the documented semantics of
+// ReservationOwner: every given part must hold; inside a part every non-empty field must be equal
+func c05EvalOwner(o c05Owner, pod *corev1.Pod) (obj, ctrl, lbl bool) {
+	obj, ctrl, lbl = true, true, true
+	if o.obj != nil {
+		if o.obj.UID != "" && o.obj.UID != pod.UID {
+			obj = false
+		}
+		if o.obj.Name != "" && o.obj.Name != pod.Name {
+			obj = false
+		}
+		if o.obj.Namespace != "" && o.obj.Namespace != pod.Namespace {
+			obj = false
+		}
+	}
+	if o.ctrl != nil {
+		ctrl = false
+		if o.ctrl.Namespace == "" || o.ctrl.Namespace == pod.Namespace {
+			for _, ref := range pod.OwnerReferences {
+				ok := true
+				if o.ctrl.Controller != nil && (ref.Controller == nil || *ref.Controller != *o.ctrl.Controller) {
+					ok = false
+				}
+				if o.ctrl.UID != "" && o.ctrl.UID != ref.UID {
+					ok = false
+				}
+				if o.ctrl.Name != "" && o.ctrl.Name != ref.Name {
+					ok = false
+				}
+				if o.ctrl.Kind != "" && o.ctrl.Kind != ref.Kind {
+					ok = false
+				}
+				if ok {
+					ctrl = true
+				}
+			}
+		}
+	}
+	if o.sel != nil {
+		for k, v := range o.sel.MatchLabels {
+			if pv, ok := pod.Labels[k]; !ok || pv != v {
+				lbl = false
+			}
+		}
+		for _, e := range o.sel.MatchExpressions { // only `In` is generated
+			pv, ok := pod.Labels[e.Key]
+			in := false
+			for _, v := range e.Values {
+				if ok && v == pv {
+					in = true
+				}
+			}
+			if !in {
+				lbl = false
+			}
+		}
+	}
+	return
+}
+
+func TestVerifC05Match(t *testing.T) {
+	h := vOpen("C05")
+	if h == nil {
+		t.Skip("VERIF_OUT not set")
+	}
+	n := h.N(3000, 60000)
+	for idx := 0; idx < n; idx++ {
+		r := h.Begin(idx)
+		if r == nil {
+			continue
+		}
+		// the pod
+		pod := &corev1.Pod{ObjectMeta: metav1.ObjectMeta{Name: []string{"p1", "p2"}[r.Intn(2)], Namespace: []string{"default", "other"}[r.Intn(2)],
+			UID: types.UID([]string{"7", "8"}[r.Intn(2)]), Labels: map[string]string{}, Annotations: map[string]string{}}}
+		switch r.Intn(3) {
+		case 0:
+			pod.Labels["app"] = "a"
+		case 1:
+			pod.Labels["app"] = "b"
+		}
+		if r.Bool() {
+			pod.OwnerReferences = []metav1.OwnerReference{{Name: []string{"rs1", "rs2"}[r.Intn(2)], Kind: "ReplicaSet", UID: "u1", Controller: ptr.To(r.Bool())}}
+		}
+		podCPU := int64(r.Range(1, 3) * 500)
+		pod.Spec.Containers = []corev1.Container{{Name: "c", Resources: corev1.ResourceRequirements{Requests: corev1.ResourceList{corev1.ResourceCPU: c05Q(0, podCPU)}}}}
+
+		// the reservation's owners
+		k := r.Range(0, 3)
+		if r.Chance(1, 10) {
+			k = 0
+		}
+		var owners []c05Owner
+		var spec []schedulingv1alpha1.ReservationOwner
+		for i := 0; i < k; i++ {
+			var o c05Owner
+			switch r.Intn(5) {
+			case 0:
+				o.obj = &corev1.ObjectReference{Name: []string{"p1", "p2"}[r.Intn(2)]}
+			case 1:
+				o.obj = &corev1.ObjectReference{UID: types.UID([]string{"7", "8"}[r.Intn(2)]), Namespace: []string{"", "default", "other"}[r.Intn(3)]}
+			case 2:
+				o.obj = &corev1.ObjectReference{Namespace: []string{"default", "other"}[r.Intn(2)], Kind: "Pod"}
+			}
+			switch r.Intn(5) {
+			case 0:
+				o.ctrl = &schedulingv1alpha1.ReservationControllerReference{OwnerReference: metav1.OwnerReference{Name: []string{"rs1", "rs2"}[r.Intn(2)]}}
+			case 1:
+				o.ctrl = &schedulingv1alpha1.ReservationControllerReference{OwnerReference: metav1.OwnerReference{Kind: "ReplicaSet", Controller: ptr.To(true)},
+					Namespace: []string{"", "default", "other"}[r.Intn(3)]}
+			}
+			switch r.Intn(5) {
+			case 0:
+				o.sel = &metav1.LabelSelector{MatchLabels: map[string]string{"app": []string{"a", "b"}[r.Intn(2)]}}
+			case 1:
+				o.sel = &metav1.LabelSelector{MatchExpressions: []metav1.LabelSelectorRequirement{{Key: "app", Operator: metav1.LabelSelectorOpIn,
+					Values: [][]string{{"a"}, {"a", "b"}, {"c"}}[r.Intn(3)]}}}
+			case 2:
+				o.sel = &metav1.LabelSelector{} // empty selector matches everything
+			}
+			owners = append(owners, o)
+			spec = append(spec, schedulingv1alpha1.ReservationOwner{Object: o.obj, Controller: o.ctrl, LabelSelector: o.sel})
+		}
+		perr := r.Chance(1, 12)
+		if perr {
+			spec = append(spec, schedulingv1alpha1.ReservationOwner{LabelSelector: &metav1.LabelSelector{
+				MatchExpressions: []metav1.LabelSelectorRequirement{{Key: "k", Operator: "Bogus", Values: []string{"v"}}}}})
+		}
+		resCPU := int64(r.Range(1, 3) * 500)
+		res := &schedulingv1alpha1.Reservation{
+			ObjectMeta: metav1.ObjectMeta{Name: "r1", UID: "1", Labels: map[string]string{"zone": "a"}},
+			Spec: schedulingv1alpha1.ReservationSpec{Owners: spec, AllocateOnce: ptr.To(false),
+				Template: &corev1.PodTemplateSpec{Spec: corev1.PodSpec{Containers: []corev1.Container{{Name: "c",
+					Resources: corev1.ResourceRequirements{Requests: corev1.ResourceList{corev1.ResourceCPU: c05Q(0, resCPU)}}}}}}},
+			Status: schedulingv1alpha1.ReservationStatus{NodeName: "n1", Phase: schedulingv1alpha1.ReservationAvailable,
+				Allocatable: corev1.ResourceList{corev1.ResourceCPU: c05Q(0, resCPU)}},
+		}
+		unsched := false
+		if r.Chance(1, 4) {
+			res.Spec.Unschedulable = true
+			unsched = true
+		}
+		if r.Chance(1, 8) {
+			now := metav1.Now()
+			res.DeletionTimestamp = &now
+			unsched = true
+		}
+		taintEffect := corev1.TaintEffect("")
+		switch r.Intn(5) {
+		case 0:
+			taintEffect = corev1.TaintEffectNoSchedule
+		case 1:
+			taintEffect = corev1.TaintEffectPreferNoSchedule // not a do-not-schedule taint
+		}
+		if taintEffect != "" {
+			res.Spec.Taints = []corev1.Taint{{Key: "t", Effect: taintEffect}}
+		}
+
+		// pod side: ignore label, affinity, exact-match spec
+		ignored := r.Chance(1, 8)
+		if ignored {
+			pod.Labels[apiext.LabelReservationIgnored] = "true"
+		}
+		hasAff := r.Chance(2, 3)
+		hasName, nameMatch, affinityOK, tolerateUnsch, taintBad := false, false, true, false, false
+		if hasAff {
+			aff := apiext.ReservationAffinity{}
+			switch r.Intn(4) {
+			case 0:
+				aff.Name = []string{"r1", "rX"}[r.Intn(2)]
+				hasName, nameMatch = true, aff.Name == "r1"
+			case 1, 2:
+				z := []string{"a", "b"}[r.Intn(2)]
+				aff.ReservationSelector = map[string]string{"zone": z}
+				affinityOK = z == "a"
+			}
+			tolT, tolU := false, false
+			switch r.Intn(5) {
+			case 0:
+				aff.Tolerations = []corev1.Toleration{{Key: "t", Operator: corev1.TolerationOpExists, Effect: corev1.TaintEffectNoSchedule}}
+				tolT = true
+			case 1:
+				aff.Tolerations = []corev1.Toleration{{Key: corev1.TaintNodeUnschedulable, Operator: corev1.TolerationOpExists, Effect: corev1.TaintEffectNoSchedule}}
+				tolU = true
+			case 2:
+				aff.Tolerations = []corev1.Toleration{{Operator: corev1.TolerationOpExists}}
+				tolT, tolU = true, true
+			}
+			tolerateUnsch = tolU
+			taintBad = taintEffect == corev1.TaintEffectNoSchedule && !tolT
+			b, _ := json.Marshal(aff)
+			pod.Annotations[apiext.AnnotationReservationAffinity] = string(b)
+		}
+		exact := true
+		if r.Chance(1, 3) {
+			pod.Annotations[apiext.AnnotationExactMatchReservationSpec] = `{"resourceNames":["cpu"]}`
+			exact = podCPU == resCPU
+		}
+
+		rInfo := frameworkext.NewReservationInfo(res)
+		var tri []int64
+		satisfied := false
+		for _, o := range owners {
+			a, b, c := c05EvalOwner(o, pod)
+			tri = append(tri, int64(vB(a)), int64(vB(b)), int64(vB(c)))
+			if a && b && c {
+				satisfied = true
+			}
+		}
+		if perr {
+			satisfied = false
+		}
+		sp := ""
+		if len(tri) > 0 {
+			sp = " " + vInts(tri)
+		}
+		h.Op("own %d %d%s", vB(perr), k, sp)
+		got := rInfo.MatchOwners(pod)
+		h.Obs("own %d", vB(got))
+		if got && !satisfied {
+			h.Fail("C05:owner-mismatch", "MatchOwners accepted a pod that satisfies none of the %d owner entries (parse error %v)", k, perr)
+		}
+		h.Tag(fmt.Sprintf("own:%v", got))
+		h.Tag(fmt.Sprintf("owners:%d", k))
+
+		h.Op("chk %d %d %d %d %d %d %d %d %d %d%s", vB(ignored), vB(perr), vB(hasName), vB(nameMatch), vB(exact), vB(unsched),
+			vB(tolerateUnsch), vB(taintBad), vB(affinityOK), k, sp)
+		ra, err1 := reservationutil.GetRequiredReservationAffinity(pod)
+		ems, err2 := apiext.GetExactMatchReservationSpec(pod.Annotations)
+		if err1 != nil || err2 != nil {
+			h.Obs("chk parse-error")
+		} else {
+			diag := &nodeDiagnosisState{nodeName: "n1", taintsUnmatchedReasons: map[string]int{}}
+			node := &corev1.Node{ObjectMeta: metav1.ObjectMeta{Name: "n1"}}
+			podReq := corev1.ResourceList{corev1.ResourceCPU: c05Q(0, podCPU)}
+			var m bool
+			if h.Guard(func() {
+				m = checkReservationMatchedOrIgnored(pod, rInfo, diag, node, podReq, ra, ems, ra.GetName(), apiext.IsReservationIgnored(pod))
+			}) {
+				h.Obs("chk panic")
+			} else {
+				h.Obs("chk %d", vB(m))
+				h.Tag(fmt.Sprintf("chk:%v", m))
+				// ORACLE: a pod is only matched (not merely "ignored") to a reservation whose owner spec it satisfies
+				if m && !ignored && !satisfied {
+					h.Fail("C05:owner-mismatch", "pod matched to a reservation although it satisfies none of its %d owner entries (parse error %v)", k, perr)
+				}
+				if m && !ignored && satisfied {
+					h.Nontrivial()
+				}
+			}
+		}
+		h.End()
+	}
+	h.Close("one pod (name/uid/namespace/labels/controller reference varied) against one reservation with 0-3 owner entries (object reference, " +
+		"controller reference, label selector incl. In-expressions, empty selector, unparsable selector), unschedulable / terminating / tainted reservation, " +
+		"pod with ignore label, reservation affinity by name / selector, tolerations, exact-match spec; non-trivial = matched through an owner entry; distinct by op lines")
+}
